@@ -283,6 +283,10 @@ func rjReference(cl hClause, store rjStore, dom []int64) map[string]bool {
 		p.r.vars(vs)
 	}
 	delete(vs, "_")
+	if cl.letVar != "" {
+		delete(vs, cl.letVar) // defined by the transform from the body's solution
+		cl.letExpr.vars(vs)
+	}
 	names := sortedKeys(vs)
 	out := map[string]bool{}
 	sigma := map[string]int64{}
@@ -293,6 +297,14 @@ func rjReference(cl hClause, store rjStore, dom []int64) map[string]bool {
 				if !rjHolds(p, sigma, store) {
 					return
 				}
+			}
+			if cl.letVar != "" {
+				v, ok := rjTermVal(cl.letExpr, sigma)
+				if !ok {
+					return
+				}
+				sigma[cl.letVar] = v
+				defer delete(sigma, cl.letVar)
 			}
 			var hs []int64
 			for _, h := range cl.head {
@@ -517,8 +529,23 @@ func clauseEvalRule(c *core.Ctx, rule, what string) {
 	bad, n, nDelta := "", 0, 0
 	clauses := rjClauses(c.Tier == "thorough")
 	safe := 0
-	for _, cl := range clauses {
-		if unsafeReason(cl.head, cl.prems, false, nil) != "" {
+	nFamily := len(clauses)
+	if what != "naive" {
+		// heads with function expressions, with and without a let-transform (safe by construction: every
+		// variable of the head and of the let expression is bound by the positive atoms)
+		X, Y, N := hv("X"), hv("Y"), hv("N")
+		aX := hPrem{kind: "atom", pred: "a", args: []hTerm{X}}
+		eXY := hPrem{kind: "atom", pred: "e", args: []hTerm{X, Y}}
+		clauses = append(clauses,
+			hClause{headPred: "h", head: []hTerm{hf("fn:plus", X, hc(10))}, prems: []hPrem{aX}},
+			hClause{headPred: "h", head: []hTerm{hf("fn:plus", X, Y), hf("fn:mult", X, hc(2))}, prems: []hPrem{eXY}},
+			hClause{headPred: "h", head: []hTerm{X, N}, prems: []hPrem{aX}, letVar: "N", letExpr: hf("fn:mult", X, hc(2))},
+			hClause{headPred: "h", head: []hTerm{hf("fn:plus", X, hc(10)), N}, prems: []hPrem{aX}, letVar: "N", letExpr: hf("fn:mult", X, hc(2))},
+			hClause{headPred: "h", head: []hTerm{N, hf("fn:minus", Y, X)}, prems: []hPrem{eXY}, letVar: "N", letExpr: hf("fn:plus", X, Y)},
+		)
+	}
+	for ci, cl := range clauses {
+		if ci < nFamily && unsafeReason(cl.head, cl.prems, false, nil) != "" {
 			continue
 		}
 		safe++
